@@ -52,6 +52,8 @@ fn main() {
                 "C08" => props::c08::run(tier),
                 "C09" => props::c09::run(tier),
                 "C10" => props::c10::run(tier),
+                "C11" => props::c11::run(tier),
+                "C12" => props::c12::run(tier),
                 "C14" => props::c14::run(tier),
                 _ => {
                     eprintln!("unknown property {}", id);
